@@ -204,6 +204,16 @@ func (g *Gen) define(prefix, sort, term string) string {
 	return sym
 }
 
+// bindConst names a term by a declared constant (not a macro): safe inside quantifier patterns.
+func (g *Gen) bindConst(prefix, sort, term string) string {
+	if !strings.ContainsAny(term, " (") {
+		return term
+	}
+	c := g.fresh(prefix, sort)
+	g.assume(app("=", c, term))
+	return c
+}
+
 func (g *Gen) assume(term string) {
 	if term == "true" || term == "" {
 		return
@@ -244,7 +254,11 @@ func (g *Gen) heapGet(st *State, name string) string {
 	if t, ok := st.h[name]; ok {
 		return t
 	}
-	sym := quote(fmt.Sprintf("%s@e%d", name, st.epoch))
+	ep := st.epoch
+	if g.ghost[name] || g.immutableHeap(name) {
+		ep = 0 // never written by unmodelled code: an untouched ghost/constant still has its entry value
+	}
+	sym := quote(fmt.Sprintf("%s@e%d", name, ep))
 	if !g.declared[sym] {
 		g.declared[sym] = true
 		g.emit(fmt.Sprintf("(declare-const %s %s)", sym, g.heapSort(name)))
